@@ -42,6 +42,11 @@ class QueryStats:
 WITNESS_CACHE = {}
 
 
+def _subs(summ, vals):
+    """substitution of concrete operand values for the symbolic inputs (abstract inputs such as strings have none)"""
+    return [(summ.inputs[i].e, K.const_of(summ.kinds[i], vals[i])) for i in range(len(vals)) if hasattr(summ.inputs[i], "e")]
+
+
 def solve(cond, timeout_ms, seed):
     s = z3.Solver()
     s.set("timeout", int(timeout_ms))
@@ -84,7 +89,7 @@ def decide(cond, summ, qs, timeout_ms, seed, label):
         return "unsat", None
     # witnesses found earlier for the same kernel instance are tried first (evaluation only; a hit is still replayed natively)
     for vals in WITNESS_CACHE.get((summ.op, summ.kinds), []):
-        subs = [(summ.inputs[i].e, K.const_of(summ.kinds[i], vals[i])) for i in range(len(vals))]
+        subs = _subs(summ, vals)
         if z3.is_true(z3.simplify(z3.substitute(c, *subs))):
             qs.violated += 1
             qs.by_candidate += 1
@@ -92,7 +97,7 @@ def decide(cond, summ, qs, timeout_ms, seed, label):
     if summ.op == "mul" and (":must-fail" in label or ":C17" in label or "=>" in label):
         # wide multiplications: witness search by evaluation on the boundary grid is much cheaper than bit-blasting
         for vals in candidates(summ):
-            subs = [(summ.inputs[i].e, K.const_of(summ.kinds[i], vals[i])) for i in range(len(vals))]
+            subs = _subs(summ, vals)
             if z3.is_true(z3.simplify(z3.substitute(c, *subs))):
                 qs.violated += 1
                 qs.by_candidate += 1
@@ -112,7 +117,7 @@ def decide(cond, summ, qs, timeout_ms, seed, label):
         return "sat", vals
     # unknown: candidate search by evaluation (a found witness is checked natively anyway)
     for vals in candidates(summ):
-        subs = [(summ.inputs[i].e, K.const_of(summ.kinds[i], vals[i])) for i in range(len(vals))]
+        subs = _subs(summ, vals)
         if z3.is_true(z3.simplify(z3.substitute(c, *subs))):
             qs.violated += 1
             qs.by_candidate += 1
